@@ -117,6 +117,7 @@ static void c15_decode(int n) {
     }
 }
 static void scen_c15(int depth, int sampled, int sampled_len, int shard, int nshards) {
+    g_tpm2_statics = 0;   /* C15 is about call orders within one process */
     Buf b = {0}; TPMLIB_SetDebugLevel(0);
     c15_make_good(&b);
     /* exhaustive: every sequence of `depth` operations, each from a reset library; shards split the first operation */
